@@ -302,7 +302,12 @@ impl C03 {
             if kinds >= 2 {
                 rep.labels.push("edge-kinds>=2");
             }
-            if let Err(f) = check_conflict_graph(&c.u, &c.ix, &c.problem, &d.graph) {
+            crate::oracle::DPLL_EXHAUSTED.with(|x| x.set(false));
+            let checked = check_conflict_graph(&c.u, &c.ix, &c.problem, &d.graph);
+            if crate::oracle::DPLL_EXHAUSTED.with(|x| x.get()) {
+                rep.labels.push("graph-unsat-check-budget-exhausted");
+            }
+            if let Err(f) = checked {
                 rep.failure = Some(Failure {
                     signature: format!("C03:{}", f.clause),
                     detail: format!("{}: {}\ngraph: {:?}", f.clause, f.detail, d.graph),
